@@ -30,6 +30,10 @@ CHECKS = {
  "C05": dict(category="model_checking", technique="exhaustive enumeration of start-condition declarations x rule-to-condition-list assignments x scope writings (activation), and deviation-bounded DFS over yybegin/push/pop/top/return histories from empty and pre-filled stacks, on the real scanner against a list model",
    text="Activation: every %s/%x declaration of two conditions x every pair of the 9 condition lists (none, <*>, the 7 subsets of {INITIAL,A,B}) x prefix / scope / nested-scope / ^-anchored writings; each spec is scanned in each of its 3 conditions on every input of length <= 2 and the rule that fires is compared with the documented activation function. Stack: every sequence of yybegin/yy_push_state/yy_pop_state/yy_top_state/return within the bound (arguments exhaustive), in non-reentrant, reentrant and c99 scanners, from an empty stack and from stacks filled through the API before the first yylex() to 0,1,24,25,26,49,50,51,101 entries; yystart() and yy_top_state() are compared after every operation and a pop of an empty stack must reach the fatal-error hook.",
    note="Nested scopes read as the union of the enclosing lists; quick tier samples about a third of the 1 300 activation specs by fixed strides, thorough runs all; conditions surviving restart/buffer switches/EOF are checked in C10/C11.", design="2/C05"),
+
+ "C04": dict(category="model_checking", technique="bounded-exhaustive enumeration of NUL/8-bit patterns x inputs over {\\0,\\x80,\\xff,a,b} x all table representations x -I/-B x %pointer/%array x API, one byte per read with 1-3 byte buffers, through yylex() against the reference DFA; refusal table for 8-bit patterns in 7-bit scanners",
+   text="Every pattern of <= 1 operator over nine NUL/high-byte atoms (with the competitor a\\0b forcing back-up around NUL) x every input up to length L in all eight table representations (-Cem,-Cm,-Ce,-C,-Cf,-Cfe,-CF,-CFe) x interactive/batch x %pointer/%array x non-reentrant/reentrant/c99, delivered one byte at a time into buffers of 1, 2, 3 bytes and whole; one-operation histories (yyunput('\\0'), yyless over a NUL, yyinput on a NUL, yymore carrying a NUL) and all reject decisions; a 256-rule spec reaching 256 equivalence classes; 7-bit scanners compared on all 7-bit inputs; each 8-bit spelling under -7 / default -Cf / -CF must be refused with a message.",
+   note="-8 passed explicitly for full/fast tables (7-bit by default, documented); -I is not combined with full/fast tables (always batch).", design="2/C04"),
 }
 
 NOT_YET = "check under construction in this round; will be claimed once it has run end-to-end on the unchanged tree"
